@@ -451,7 +451,12 @@ func (cs *Contracts) LoadContractFile(path, pkg string, repoStyle bool) error {
 				return perr(fmt.Errorf("expected ghost field T.f type"))
 			}
 			k := strings.LastIndex(f[1], ".")
-			cs.ghosts[pkg+"."+f[1]] = &GhostField{Struct: pkg + "." + f[1][:k], Name: f[1][k+1:], Type: strings.Join(f[2:], " ")}
+			q := pkg + "." + f[1]
+			if strings.Count(f[1], ".") >= 2 {
+				q = f[1] // already package-qualified (ghost state of a dependency type)
+			}
+			k = strings.LastIndex(q, ".")
+			cs.ghosts[q] = &GhostField{Struct: q[:k], Name: q[k+1:], Type: strings.Join(f[2:], " ")}
 		case "require-obligation":
 			// require-obligation[C07] name
 			for _, p := range props {
